@@ -41,16 +41,16 @@ func ToUnicode(name string, dingbats bool) []rune {
 	parts := strings.Split(name, "_")
 	for _, part := range parts {
 		if dingbats {
-			c, ok := glyph.lookup("zapfdingbats", part)
+			c, ok := glyph.lookupSeq("zapfdingbats", part)
 			if ok {
-				res = append(res, c)
+				res = append(res, c...)
 				continue
 			}
 		}
 
-		c, ok := glyph.lookup("glyphlist", part)
+		c, ok := glyph.lookupSeq("glyphlist", part)
 		if ok {
-			res = append(res, c)
+			res = append(res, c...)
 			continue
 		}
 
@@ -117,6 +117,7 @@ func FromUnicode(r rune) string {
 type glyphMap struct {
 	sync.Mutex
 	nameToRune map[string]map[string]rune
+	nameToSeq  map[string][]rune // entries denoting several characters
 	runeToName map[rune]string
 }
 
@@ -174,6 +175,20 @@ func (gm *glyphMap) lookup(file, name string) (rune, bool) {
 	return c, ok
 }
 
+// lookupSeq is like lookup, but also finds the entries which denote a
+// sequence of several characters.
+func (gm *glyphMap) lookupSeq(file, name string) ([]rune, bool) {
+	gm.Lock()
+	defer gm.Unlock()
+
+	fMap := gm.getFile(file)
+	if c, ok := fMap[name]; ok {
+		return []rune{c}, true
+	}
+	seq, ok := gm.nameToSeq[file+"/"+name]
+	return seq, ok
+}
+
 func (gm *glyphMap) getFile(file string) map[string]rune {
 	fMap := gm.nameToRune[file]
 	if fMap != nil {
@@ -194,6 +209,15 @@ func (gm *glyphMap) getFile(file string) map[string]rune {
 		}
 		ww := strings.SplitN(line, ";", 2)
 		name := ww[0]
+		if codes := strings.Fields(ww[1]); len(codes) > 1 {
+			seq := make([]rune, len(codes))
+			for i, c := range codes {
+				code, _ := strconv.ParseInt(c, 16, 32)
+				seq[i] = rune(code)
+			}
+			gm.nameToSeq[file+"/"+name] = seq
+			continue
+		}
 		code, _ := strconv.ParseInt(ww[1], 16, 32)
 
 		// fix up some swapped character codes
@@ -216,6 +240,7 @@ func (gm *glyphMap) getFile(file string) map[string]rune {
 
 var glyph = &glyphMap{
 	nameToRune: make(map[string]map[string]rune),
+	nameToSeq:  make(map[string][]rune),
 }
 
 //go:embed agl-aglfn/*.txt
